@@ -61,3 +61,46 @@ func FuzzC08Decode(f *testing.F) {
 		}
 	})
 }
+
+// FuzzC08HTTP fuzzes the HTTP framer codec (core/pkg/transport/http/framer) around a dynamic
+// frame codec that has received two channel-set updates: arbitrary bytes decoded into each of
+// the six WebSocket message payload types, with and without the opaque stream reader. Same
+// oracle as above. Every fuzz worker provisions its own one-node mock cluster for the channel
+// pool (once per process).
+func FuzzC08HTTP(f *testing.F) {
+	for _, msg := range httpMsgs {
+		for mi := range httpMsgs {
+			_ = msg
+			f.Add([]byte{255, 0x3f, 1, 0, 0, 0, 0, 0, 0, 0, 0}, uint8(mi), uint8(0))
+			f.Add([]byte{254, '{', '}'}, uint8(mi), uint8(0))
+			f.Add([]byte(`{"type":"data","payload":{"keys":[1,2],"frame":{"keys":[1],"series":[]}}}`), uint8(mi), uint8(1))
+			f.Add([]byte{253, 0, 0, 0, 0}, uint8(mi), uint8(0))
+		}
+		break
+	}
+	for _, v := range hostileU32 {
+		f.Add(append(append([]byte{255, 0x00}, le32(v)...), le32(v)...), uint8(0), uint8(0))
+	}
+	f.Fuzz(func(t *testing.T, data []byte, msg uint8, mode uint8) {
+		pool, err := getPool()
+		if err != nil {
+			t.Skip("channel pool unavailable: " + err.Error())
+		}
+		if len(data) > maxInput {
+			data = data[:maxInput]
+		}
+		sc := BytesScript{Target: "http-updated", Msg: httpMsgs[int(msg)%len(httpMsgs)], PoolKeys: pool.keys,
+			Updates: [][]int{{0, 1, 2}, {1, 3}}, Input: hex.EncodeToString(data), How: "native-fuzz"}
+		if mode&1 == 1 {
+			sc.Stream = true
+			sc.Chunk = []int{0, 1, 3, 7}[(mode>>1)&3]
+		}
+		rep := &recorder{}
+		if _, err := execBytes(sc, rep); err != nil {
+			if v, ok := err.(*kit.Violation); ok {
+				t.Fatalf("VERIF-FUZZ-VIOLATION %s: %s", v.Sig, v.Msg)
+			}
+			t.Fatalf("VERIF-FUZZ-VIOLATION error: %v", err)
+		}
+	})
+}
